@@ -1,0 +1,73 @@
+//go:build verif
+
+package simple
+
+// Contracts for the deductive verifier under /verif (comment-only; build tag verif).
+// The lexer in this package is generated (templates in gen/), in the inlined form: an accept
+// entry of the transition table encodes the token directly (tok = tmFirstRule - state).
+
+// ---- the constant tables of the generated lexer ----
+
+//@ table tmRuneClass
+//@   fact len(tmRuneClass) == 256
+//@   fact forall i in 0..len(tmRuneClass) :: 0 <= tmRuneClass[i] && tmRuneClass[i] < 16
+
+// the compressed rune map (a slice of structs): its facts are evaluated on the initialised variable
+//@ table tmRuneRanges
+//@   fact len(tmRuneRanges) == 582
+//@   fact forall i in 0..len(tmRuneRanges) :: tmRuneRanges[i].defaultVal < 16 && 0 <= tmRuneRanges[i].lo && tmRuneRanges[i].lo < tmRuneRanges[i].hi
+//@   fact forall i in 0..len(tmRuneRanges) :: forall j in 0..len(tmRuneRanges[i].val) :: tmRuneRanges[i].val[j] < 16
+//@   fact forall i in 0..len(tmRuneRanges)-1 :: tmRuneRanges[i].hi <= tmRuneRanges[i+1].lo
+
+//@ table tmLexerAction
+//@   fact len(tmLexerAction) == 13 * 16
+//@   fact forall i in 0..len(tmLexerAction) :: -8 <= tmLexerAction[i] && tmLexerAction[i] < 13
+// the start state has no accepting entry other than "invalid token": a token is never empty
+//@   fact forall i in 0..16 :: tmLexerAction[i] == -2 || tmLexerAction[i] >= 0
+//@   fact tmLexerAction[0] == -2
+// the end-of-input token (entry -1) is never an accept action of the automaton: EOI comes from Next itself
+//@   fact forall i in 0..len(tmLexerAction) :: tmLexerAction[i] != -1
+
+// mapRune: the class of a rune outside Latin-1, by binary search in tmRuneRanges; always a class.
+//@ func mapRune
+//@   ensures 0 <= result && result < 16
+//@   loop 1:
+//@     invariant 0 <= lo && lo <= hi && hi <= len(tmRuneRanges)
+//@     decreases hi - lo
+
+// ---- lexer state ----
+
+//@ pred wfWindow(l *Lexer) = 0 <= l.offset && l.offset <= l.scanOffset && l.scanOffset <= len(l.source) && (l.ch == -1 <==> l.offset == len(l.source)) && (l.offset == len(l.source) ==> l.scanOffset == l.offset) && (l.offset < len(l.source) ==> l.scanOffset > l.offset && l.scanOffset <= l.offset + 4 && 0 <= l.ch && l.ch <= 1114111)
+//@ pred wfChar(l *Lexer) = newlines(l.source, l.offset, l.scanOffset) == (l.ch == 10 ? 1 : 0)
+//@ pred wfLine(l *Lexer) = l.line == 1 + newlines(l.source, 0, l.offset)
+
+//@ func Lexer.rewind
+//@   requires 0 <= l.offset && l.offset <= len(l.source) && wfLine(l) && 0 <= offset
+//@   modifies l.ch, l.offset, l.scanOffset, l.line
+//@   ensures wfWindow(l) && wfChar(l) && wfLine(l)
+//@   ensures l.offset == (offset > len(l.source) ? len(l.source) : offset)
+
+//@ func Lexer.Init
+//@   modifies l.source, l.ch, l.offset, l.scanOffset, l.tokenOffset, l.line, l.tokenLine
+//@   ensures wfWindow(l) && wfChar(l) && wfLine(l) && l.source == source
+//@   ensures l.tokenOffset == 0 && (l.offset == 0 || l.offset == 3)
+
+// Next (C12): as for the other generated lexers - the invariant is kept, tokens come in source
+// order, every token except EOI is non-empty, EOI only at the end of the source, tokenLine is the
+// line of the token's first byte, and the restart loop (space tokens) strictly advances.
+//@ func Lexer.Next
+//@   requires wfWindow(l) && wfChar(l) && wfLine(l)
+//@   modifies l.ch, l.offset, l.scanOffset, l.tokenOffset, l.line, l.tokenLine
+//@   ensures wfWindow(l) && wfChar(l) && wfLine(l)
+//@   ensures old(l.offset) <= l.tokenOffset && l.tokenOffset <= l.offset
+//@   ensures result != token.EOI ==> l.tokenOffset < l.offset
+//@   ensures result == token.EOI ==> l.tokenOffset == len(l.source) && l.offset == len(l.source)
+//@   ensures l.tokenLine == 1 + newlines(l.source, 0, l.tokenOffset)
+//@   loop 1:
+//@     invariant wfWindow(l) && wfChar(l) && wfLine(l) && old(l.offset) <= l.offset
+//@     decreases len(l.source) - l.offset
+//@   loop 2:
+//@     invariant wfWindow(l) && wfChar(l) && wfLine(l)
+//@     invariant old(l.offset) <= l.tokenOffset && l.tokenOffset <= l.offset && l.tokenLine == 1 + newlines(l.source, 0, l.tokenOffset)
+//@     invariant -8 <= state && state < 13 && state != -1
+//@     invariant l.offset == l.tokenOffset ==> state == 0 || state == -2
